@@ -990,6 +990,7 @@ impl CompositionGraph {
     ///
     /// This method panics if the provided node id is invalid.
     pub fn unexport(&mut self, node: NodeId) -> Result<(), UnexportError> {
+        let node_index = node.0;
         let node = &mut self.graph[node.0];
         if let NodeKind::Definition = node.kind {
             return Err(UnexportError::MustExportDefinition);
@@ -1000,6 +1001,9 @@ impl CompositionGraph {
             let removed = self.exports.swap_remove(&name);
             assert!(removed.is_some());
         }
+
+        // A node may have been exported under several names
+        self.exports.retain(|_, n| *n != node_index);
 
         Ok(())
     }
@@ -1051,6 +1055,7 @@ impl CompositionGraph {
             "removing node {index} from the graph",
             index = node.0.index()
         );
+        let removed_index = node.0;
         let node = self.graph.remove_node(node.0).expect("invalid node id");
 
         // Remove any import entry
@@ -1066,6 +1071,9 @@ impl CompositionGraph {
             let removed = self.exports.swap_remove(name);
             assert!(removed.is_some());
         }
+
+        // A node may have been exported under several names
+        self.exports.retain(|_, n| *n != removed_index);
 
         if let NodeKind::Definition = node.kind {
             log::debug!(
